@@ -82,7 +82,7 @@ def make_spec(name, pattern, layout, levels):
     bx = {0: etgen.tensor_boxes(SHAPES[0], (2, 1, 2)),
           1: etgen.tensor_boxes(SHAPES[1], (1, 2, 1))}
     restarts = []
-    for p in PATTERNS[pattern]:
+    for p in PATTERNS[pattern.split('+')[0]]:
         if p.get('empty'):
             restarts.append({'empty': True, 'its': {}, 'boxes': bx,
                              'checkpoints': p['chk']})
@@ -180,6 +180,20 @@ class System:
         dst = os.path.join(self.dir, self.name, f'output-{r:04d}')
         shutil.copytree(src, dst)
         self.visible += 1
+        if '+noise' in self.cfg[1]:
+            # what simfactory leaves next to the restarts: a symlink to the
+            # running restart, plus unrelated entries whose names begin
+            # like a restart directory
+            sd = self.simdir()
+            for fn in os.listdir(sd):
+                if fn.endswith('-active'):
+                    os.remove(os.path.join(sd, fn))
+            os.symlink(f'output-{r:04d}', os.path.join(
+                sd, f'output-{r:04d}-active'))
+            if r == 0:
+                os.makedirs(os.path.join(sd, 'SIMFACTORY'), exist_ok=True)
+                os.makedirs(os.path.join(sd, 'output-backup'), exist_ok=True)
+                open(os.path.join(sd, 'output-0000.tar'), 'w').close()
         return True
 
     def simdir(self):
@@ -604,6 +618,8 @@ def plans(tier):
         cfgs.append((('sim', 'changing_group', lay, 1), 'full', 3))
     for lay in [(False, True), (True, True)]:
         cfgs.append((('sim', 'bracket_names', lay, 1), 'full', 3))
+    cfgs.append((('sim', 'three+noise', lay0, 2), 'full', 3))
+    cfgs.append((('sim', 'singles+noise', (True, True), 1), 'full', 3))
     if tier == 'thorough':
         for nm in NAMES:
             cfgs.append(((nm, 'empty_mid', (True, True), 2), 'full', 3))
@@ -632,7 +648,7 @@ def main(tier):
                 runner.in_child(build_pristine, cfg, root)
                 _PRISTINE[cfg] = root
             _CFG = cfg
-            ops = ops_menu(len(PATTERNS[cfg[1]]), small=(kind == 'small'))
+            ops = ops_menu(len(PATTERNS[cfg[1].split('+')[0]]), small=(kind == 'small'))
             label = label_of(cfg, kind, depth)
             st = explorer.bfs(factory, ops, depth, run, label=label,
                               budget_s=600, group=4)
@@ -686,7 +702,7 @@ def replay(rec):
         runner.in_child(build_pristine, cfg, root)
         _PRISTINE[cfg] = root
         _CFG = cfg
-        ops = ops_menu(len(PATTERNS[cfg[1]]), small=(kind == 'small'))
+        ops = ops_menu(len(PATTERNS[cfg[1].split('+')[0]]), small=(kind == 'small'))
 
         def go():
             return explorer.replay_history(factory, ops, c['history_idx'])
